@@ -207,17 +207,23 @@ def _chunk(chunk):
         cones = ([(C.CONE_PYRAMIDAL, 1.0), (C.CONE_PYRAMIDAL, 4.0), (C.CONE_ELLIPTIC, 1.0), (C.CONE_ELLIPTIC, 4.0)]
                  if thorough else [(C.CONE_PYRAMIDAL, 1.0), (C.CONE_ELLIPTIC, 4.0)])
         states = host.state_space(nq=2, nvel=3) if thorough else [s for s in host.state_space(nq=2, nvel=3) if s[0] == 1 and s[1] != 0]
+        sub = tier == "noslipsub"
+        if sub:
+            # quick-tier sub-lattice for the noslip post-processing of elliptic cones (QCQP per contact): all skeletons, ALL states,
+            # both impratio values, every solver, but only noslip on / 2 main iterations / dense / islands on
+            cones = [(C.CONE_ELLIPTIC, 1.0), (C.CONE_ELLIPTIC, 4.0)]
+            states = host.state_space(nq=2, nvel=3)
         for st in states:
             info = host.apply_state(st)          # state lives in (m, d); options below do not touch it
             first = True
             for cone, impratio in cones:
                 for solver in (C.SOL_NEWTON, C.SOL_CG, C.SOL_PGS):
-                    for noslip in (0, 3):
-                        for iters in (2, 100):
-                            for jac in (C.JAC_DENSE, C.JAC_SPARSE):
+                    for noslip in ((3,) if sub else (0, 3)):
+                        for iters in ((2,) if sub else (2, 100)):
+                            for jac in ((C.JAC_DENSE,) if sub else (C.JAC_DENSE, C.JAC_SPARSE)):
                                 # (island, diagexact): the exact-diagonal option re-derives R/D after island discovery, so it is
                                 # crossed with islands on (full iterations only; the 2-iteration iterate adds nothing new there)
-                                for island, diag in ((True, 0), (False, 0)) + (((True, 1),) if iters == 100 else ()):
+                                for island, diag in (((True, 0),) if sub else ((True, 0), (False, 0)) + (((True, 1),) if iters == 100 else ())):
                                     host.set_options(cone=cone, impratio=impratio, solver=solver, noslip=noslip,
                                                      iterations=iters, jacobian=jac, island=island, tolerance=1e-10,
                                                      enable=ENBL_DIAGEXACT if diag else 0)
@@ -250,6 +256,8 @@ def _chunk(chunk):
                                         part.add("runs_with_diagexact")
                                     if noslip:
                                         part.add("runs_with_noslip")
+                                    if sub:
+                                        part.add("runs_in_noslip_sublattice")
         host.free()
     return part
 
@@ -259,13 +267,17 @@ def run(ctx):
     skels = ["S0", "S1", "S2"] if ctx.thorough else ["S0"]
     mixes = C.mixes()
     items = [(s, i, a, e, ctx.tier) for s in skels for i, (a, e) in enumerate(mixes)]
+    if not ctx.thorough:
+        items += [(s, i, a, e, "noslipsub") for s in ("S0", "S1", "S2") for i, (a, e) in enumerate(mixes)
+                  if any(x in ("C4", "C6") for x in a)]
     core.pmap(ctx, _chunk, items, nchunks=min(len(items), core.NCPU * 6))
     ctx.extra["models"] = len(items)
     ctx.extra["mixes"] = len(mixes)
     ctx.rule = ("skeleton %s x all 511 non-empty subsets of {E(connect|weld|joint),F,L,T,C1,C3,C4,C6} x cone/impratio %s x "
                 "state lattice (contact k at dist %s rotated by cs, limit k at %s rotated by ls, %s) x solver{Newton,CG,PGS} x "
                 "noslip{0,3} x iterations{2,100} x jacobian{dense,sparse} x {island on, island off, island on + diagexact (full "
-                "iterations)}; evaluation = one mj_forward with all "
+                "iterations)}; quick adds the noslip sub-lattice (skeletons S0-S2 x mixes with a condim 4/6 contact x ALL states x elliptic "
+                "impratio {1,4} x solvers x noslip on, 2 iterations, dense, islands); evaluation = one mj_forward with all "
                 "oracles; non-trivial = distinct (skeleton, mix, cone, impratio, state) with a non-zero constraint force"
                 % (skels, "{pyr,ell}x{1,4}" if ctx.thorough else "{pyr/1, ell/4}", C.CONTACT_DIST, C.LIMIT_STATE_NAME,
                    "2 configurations x 3 velocity patterns" if ctx.thorough else "bent configuration x 2 non-zero velocity patterns"))
